@@ -173,6 +173,19 @@ theorem remove_add (h : Hash) (e a e' : Env) (hi : Inv h e) (hslot : a.slotOk = 
   subst hadd
   exact h2
 
+/-- **removal is by digest**: the target matters only through its digest - no test of what kind of
+element it is stands in front of the search -, so an assertion is removed just the same when it is
+named by its elided (or any other digest-equal) form, and an element added in obscured form is
+removed by naming it (`remove_add` above holds for every element that may stand in an assertion
+slot, obscured ones included) -/
+theorem remove_by_digest (h : Hash) (e a b : Env) (hd : a.digest = b.digest) :
+    removeAssertion h e a = removeAssertion h e b := by
+  unfold removeAssertion; rw [hd]
+
+theorem remove_by_elided_form (h : Hash) (e a : Env) :
+    removeAssertion h e (newElided a.digest) = removeAssertion h e a :=
+  remove_by_digest h e _ _ rfl
+
 /-- **removing the last one yields the bare subject**: for an envelope that is not a node no
 invariant is needed -/
 theorem remove_last_subject (h : Hash) (e a e' : Env) (hnn : e.isNode = false)
